@@ -338,11 +338,17 @@ def concretize(r):
     sname = {0: 'exactly.suite' if default_names else 'root.suite',
              1: 'sub/exactly.suite' if default_names else 'sub/sub.suite'}
     files = {}
+    # family sym (several cases of ONE suite, all through the suite's preprocessor): in half of the inputs the case
+    # files have the SAME name in different directories (k1/c.case, k2/c.case ...)
+    same_names = r['fam'] == 'sym' and way in ('suite', 'option') and zlib.crc32(input_key(r).encode()) % 4 >= 2
+
+    def case_name(n):
+        return 'k%d/c.case' % n if same_names else 'c%d.case' % n
     for s in r['tree']['suites']:
         t = ''
         if s['subs']:
             t += '[suites]\n' + ''.join(('sub' if default_names else 'sub/sub.suite') + '\n' for _ in s['subs'])
-        t += '[cases]\n' + ''.join('c%d.case\n' % c for c in s['cases'])
+        t += '[cases]\n' + ''.join(case_name(c) + '\n' for c in s['cases'])
         d = dict(s['doc'])
         body = doc_text(d, 0)
         if s['pre']:
@@ -351,7 +357,7 @@ def concretize(r):
         files[sname[s['id']]] = t + body
     cpath = {}
     for n, c in enumerate(r['tree']['cases'], 1):
-        cpath[n] = ('sub/' if c['home'] == 1 else '') + 'c%d.case' % n
+        cpath[n] = ('sub/' if c['home'] == 1 else '') + case_name(n)
         files[cpath[n]] = doc_text(c['doc'], n, home_dependent=(r['fam'] == 'hist'))
         if r['fam'] == 'hist':
             d = os.path.dirname(cpath[n])
